@@ -22,6 +22,9 @@ def ListOfDicts_group_by_decorators : List String := []
 /-- the signature of dataiter/list_of_dicts.py: ListOfDicts.group_by: parameters in order, with the source text of their defaults -/
 def ListOfDicts_group_by_signature : List String := ["self", "*keys"]
 
+/-- the calls of dataiter/list_of_dicts.py: ListOfDicts.group_by in the order Python makes them along the source text -/
+def ListOfDicts_group_by_call_order : List String := ["tuple"]
+
 /-- dataiter/list_of_dicts.py: ListOfDicts.anti_join (sha256 of the function source: 239f983edc83bde5) -/
 def ListOfDicts_anti_join (truth : Term → Bool) : Out :=
   let tup0_1' : Term := (Term.app "._split_join_by" [(Term.sym "self"), (Term.app "*" [(Term.sym "by")])]);
@@ -38,6 +41,9 @@ def ListOfDicts_anti_join_decorators : List String := ["deco.new_from_generator"
 
 /-- the signature of dataiter/list_of_dicts.py: ListOfDicts.anti_join: parameters in order, with the source text of their defaults -/
 def ListOfDicts_anti_join_signature : List String := ["self", "other", "*by"]
+
+/-- the calls of dataiter/list_of_dicts.py: ListOfDicts.anti_join in the order Python makes them along the source text -/
+def ListOfDicts_anti_join_call_order : List String := ["self._split_join_by", "operator.itemgetter", "operator.itemgetter", "map", "set", "extract1"]
 
 /-- dataiter/list_of_dicts.py: ListOfDicts.inner_join (sha256 of the function source: 2a3392b4a2f7e25d) -/
 def ListOfDicts_inner_join (truth : Term → Bool) : Out :=
@@ -57,6 +63,9 @@ def ListOfDicts_inner_join_decorators : List String := ["deco.obsoletes", "deco.
 
 /-- the signature of dataiter/list_of_dicts.py: ListOfDicts.inner_join: parameters in order, with the source text of their defaults -/
 def ListOfDicts_inner_join_signature : List String := ["self", "other", "*by"]
+
+/-- the calls of dataiter/list_of_dicts.py: ListOfDicts.inner_join in the order Python makes them along the source text -/
+def ListOfDicts_inner_join_call_order : List String := ["self._split_join_by", "operator.itemgetter", "operator.itemgetter", "extract2", "reversed", "extract1", "new.items", "item.update"]
 
 /-- dataiter/list_of_dicts.py: ListOfDicts.full_join (sha256 of the function source: fa2fdb6b559a09d8) -/
 def ListOfDicts_full_join (truth : Term → Bool) : Out :=
@@ -81,6 +90,9 @@ def ListOfDicts_full_join_decorators : List String := []
 /-- the signature of dataiter/list_of_dicts.py: ListOfDicts.full_join: parameters in order, with the source text of their defaults -/
 def ListOfDicts_full_join_signature : List String := ["self", "other", "*by"]
 
+/-- the calls of dataiter/list_of_dicts.py: ListOfDicts.full_join in the order Python makes them along the source text -/
+def ListOfDicts_full_join_call_order : List String := ["itertools.count", "itertools.count", "self.deepcopy", "self.deepcopy().modify", "other.deepcopy", "other.deepcopy().modify", "a.deepcopy", "a.deepcopy().left_join", "next", "ab.fill_missing_keys", "b.anti_join", "len", "ab.unselect", "isinstance", "reversed", "tuple", "b.left_join", "next", "ba.fill_missing_keys", "(ab + ba).sort", "(ab + ba).sort(_aid_=1, _bid_=1).unselect"]
+
 /-- dataiter/list_of_dicts.py: ListOfDicts._split_join_by (sha256 of the function source: 514e3228ccced4c1) -/
 def ListOfDicts_split_join_by (truth : Term → Bool) : Out :=
   let by1' : Term := (Term.app "ListComp" [(Term.app "ifexp" [(Term.app "isinstance" [(Term.sym "x"), (Term.sym "str")]), (Term.sym "x"), (Term.app "getitem" [(Term.sym "x"), (Term.int (0 : Int))])]), (Term.app "in" [(Term.sym "x"), (Term.sym "by"), (Term.app "if" [])])]);
@@ -92,6 +104,9 @@ def ListOfDicts_split_join_by_decorators : List String := []
 
 /-- the signature of dataiter/list_of_dicts.py: ListOfDicts._split_join_by: parameters in order, with the source text of their defaults -/
 def ListOfDicts_split_join_by_signature : List String := ["self", "*by"]
+
+/-- the calls of dataiter/list_of_dicts.py: ListOfDicts._split_join_by in the order Python makes them along the source text -/
+def ListOfDicts_split_join_by_call_order : List String := ["isinstance", "isinstance"]
 
 /-- dataiter/list_of_dicts.py: ListOfDicts.aggregate (sha256 of the function source: 54015ea61e3b2491) -/
 def ListOfDicts_aggregate (truth : Term → Bool) : Out :=
@@ -113,6 +128,9 @@ def ListOfDicts_aggregate_decorators : List String := ["deco.new_from_generator"
 /-- the signature of dataiter/list_of_dicts.py: ListOfDicts.aggregate: parameters in order, with the source text of their defaults -/
 def ListOfDicts_aggregate_signature : List String := ["self", "**key_function_pairs"]
 
+/-- the calls of dataiter/list_of_dicts.py: ListOfDicts.aggregate in the order Python makes them along the source text -/
+def ListOfDicts_aggregate_call_order : List String := ["self.unique", "self.unique(*by).deepcopy", "self.unique(*by).deepcopy().select", "operator.itemgetter", "extract", "items_by_group.setdefault", "items_by_group.setdefault(id, []).append", "key_function_pairs.items", "dict.fromkeys", "groups.sort", "extract", "ListOfDicts", "function"]
+
 /-- dataiter/list_of_dicts.py: ListOfDicts.left_join (sha256 of the function source: 006ed310d1531972) -/
 def ListOfDicts_left_join (truth : Term → Bool) : Out :=
   let tup0_1' : Term := (Term.app "._split_join_by" [(Term.sym "self"), (Term.app "*" [(Term.sym "by")])]);
@@ -131,6 +149,9 @@ def ListOfDicts_left_join_decorators : List String := ["deco.obsoletes", "deco.n
 /-- the signature of dataiter/list_of_dicts.py: ListOfDicts.left_join: parameters in order, with the source text of their defaults -/
 def ListOfDicts_left_join_signature : List String := ["self", "other", "*by"]
 
+/-- the calls of dataiter/list_of_dicts.py: ListOfDicts.left_join in the order Python makes them along the source text -/
+def ListOfDicts_left_join_call_order : List String := ["self._split_join_by", "operator.itemgetter", "operator.itemgetter", "extract2", "reversed", "extract1", "other_by_id.get", "new.items", "item.update"]
+
 /-- dataiter/list_of_dicts.py: ListOfDicts.semi_join (sha256 of the function source: 1a2b464ac3263fa5) -/
 def ListOfDicts_semi_join (truth : Term → Bool) : Out :=
   let tup0_1' : Term := (Term.app "._split_join_by" [(Term.sym "self"), (Term.app "*" [(Term.sym "by")])]);
@@ -147,5 +168,8 @@ def ListOfDicts_semi_join_decorators : List String := ["deco.new_from_generator"
 
 /-- the signature of dataiter/list_of_dicts.py: ListOfDicts.semi_join: parameters in order, with the source text of their defaults -/
 def ListOfDicts_semi_join_signature : List String := ["self", "other", "*by"]
+
+/-- the calls of dataiter/list_of_dicts.py: ListOfDicts.semi_join in the order Python makes them along the source text -/
+def ListOfDicts_semi_join_call_order : List String := ["self._split_join_by", "operator.itemgetter", "operator.itemgetter", "map", "set", "extract1"]
 
 end DI.Gen
